@@ -76,3 +76,11 @@ Theorem C07h_unaccounted_row_refuted :
     files _ facts_unknown_read [] render0 e1 (mk_cfg LHtml false) I p
     <> files _ facts_unknown_read [] render0 e2 (mk_cfg LHtml false) I p.
 Proof. exact unaccounted_row_refuted. Qed.
+
+(* the Namespace path API printed ungated (never in /repo): the OUTPUT location shows although the inputs did not move *)
+Theorem C07h_output_location_refuted :
+  exists I e1 e2 p,
+    e_abs e1 = e_abs e2 /\
+    files _ facts_all_true tbl_outpath render0 e1 (mk_cfg LC false) I p
+    <> files _ facts_all_true tbl_outpath render0 e2 (mk_cfg LC false) I p.
+Proof. exact output_location_refuted. Qed.
